@@ -5,7 +5,7 @@
 From Coq Require Import List Arith Bool Lia Permutation.
 Import ListNotations.
 Require Import FV.Gen.C15 FV.C15.Model FV.C15.Lemmas FV.C15.LemmasInit FV.C15.LemmasSort FV.C15.LemmasWf
-  FV.C15.LemmasGlobal FV.C15.LemmasTerm FV.C15.LemmasOnce FV.C15.Refuted.
+  FV.C15.LemmasGlobal FV.C15.LemmasTerm FV.C15.LemmasOnce FV.C15.Refuted FV.C15.Run FV.C15.LemmasRun FV.C15.LemmasErr FV.C15.LemmasThread.
 
 (* obligations on the facts regenerated from /repo (Gen/C15.v) *)
 Theorem C15_source_facts :
@@ -13,7 +13,8 @@ Theorem C15_source_facts :
   processcfg_initialises_every_module = true /\
   descriptive_data_initialises_exported = true /\ shutdown_stops_pollers_first = true /\
   sorted_modules_reversed_postorder = true /\ pollthread_writes_then_reads_then_started = true /\
-  writeinitparams_absorbs_write_errors = true /\
+  writeinitparams_absorbs_write_errors = true /\ pollthread_comm_failure_abandons_startup = true /\
+  callpollfunc_reraises_only_comm_failure = true /\ regular_loop_first_pass_polls_every_module = true /\
   startmodule_starts_thread_iff_polled = true /\ initmodule_registers_at_io = true /\
   attached_get_checks = true /\ hasio_creates_io_once_per_uri = true /\
   multievent_set_only_when_all_triggered = true /\ 0 < start_timeout.
@@ -88,15 +89,84 @@ Theorem C15_ready_after_first_round :
       (b = false -> exists th, In th (s_threads s) /\ t_done th = false).
 Proof. intros; apply ready_after_first_round; assumption. Qed.
 
-(* the first round of a poll thread: every configured start value of every module it serves is written (and
-   initialReads called) before the first read of any of them, the started callback comes last *)
+(* the first round of a poll thread without communication failure (no CommunicationFailedError scripted for
+   initialReads or a first read of a module it serves; failing writes and every other exception are absorbed and are
+   covered): every configured start value of every module it serves is written (and initialReads called) before the
+   first read of any of them, then the started callback, then the first pass of the regular loop (doPoll) *)
 Theorem C15_writes_before_first_poll :
-  forall st t, exists A B,
-    thread_prog st t = A ++ B ++ [EStarted t] /\
-    (forall m k, ~ In (ERead m k) A) /\ (forall e, In e B -> exists m k, e = ERead m k) /\
+  forall st t,
+    (forall m, In m (polled_of st t) -> d_cfail (decl_of st m) = CFNone) ->
+    exists A B,
+    thread_prog st t = A ++ B ++ [EStarted t] ++ map EDoPoll (polled_on st t) /\
+    (forall m k, ~ In (ERead m k) A) /\ (forall m, ~ In (EDoPoll m) A) /\
+    (forall e, In e B -> exists m k, e = ERead m k) /\
     (forall m k, In (EWrite m k) A -> In m (polled_of st t) /\ In k (d_writes (decl_of st m))) /\
     (forall m, In m (polled_of st t) -> forall k, In k (d_writes (decl_of st m)) -> In (EWrite m k) A).
-Proof. intros; apply thread_prog_shape. Qed.
+Proof. intros; apply thread_prog_shape; assumption. Qed.
+
+(* histories WITH communication failures.  Full statement (does NOT hold, see
+   C15_refuted_writes_before_first_poll_after_comm_failure, finding C15/later-modules-skipped-after-comm-failure):
+     forall st t m k, In m (polled_of st t) -> In k (d_writes (decl_of st m)) ->
+       exists P1 P2, thread_prog st t = P1 ++ EWrite m k :: P2 /\ no read, doPoll or started callback in P1.
+   Proved under the exact guard the code supports: initialReads of no module served EARLIER by the same thread raises
+   CommunicationFailedError (a failure in initialReads of m itself or of a later module, in any first read, in any
+   write is allowed).  Then every configured value of m is written, and everything the thread did before is a write
+   or an initialReads call - no read function, no doPoll, no started callback. *)
+Theorem C15_writes_before_first_poll_with_comm_failure_partial :
+  forall st t L1 m L2 k,
+    polled_of st t = L1 ++ m :: L2 ->
+    (forall x, In x L1 -> d_cfail (decl_of st x) <> CFIReads) ->
+    In k (d_writes (decl_of st m)) ->
+    exists P1 P2, thread_prog st t = P1 ++ EWrite m k :: P2 /\
+      (forall e, In e P1 -> exists x j, e = EWrite x j \/ e = EIReads x).
+Proof. intros; eapply writes_before_poll_comm; eauto. Qed.
+
+(* every history: what a poll thread does is a prefix of the start-up sequence (writes and initialReads of every served
+   module, then the first reads) - all of it unless the last event of the prefix raised CommunicationFailedError -,
+   then the started callback (once, so with C15_ready_after_first_round: ready only after every thread finished or
+   abandoned its first round, or timed out), after a failure the short wait, then the first pass of the regular loop *)
+Theorem C15_first_round_with_comm_failure :
+  forall st t, exists (pre suf : list event) (aborted : bool),
+    startup_prog st t = pre ++ suf /\
+    thread_prog st t = pre ++ [EStarted t] ++ (if aborted then [ECWait t] else []) ++ map EDoPoll (polled_on st t) /\
+    (aborted = false -> suf = []) /\
+    (aborted = true -> exists p e, pre = p ++ [e] /\ fails_at st e = true) /\
+    (forall e, In e (removelast pre) -> fails_at st e = false).
+Proof. intros; apply thread_prog_general. Qed.
+
+(* ---- a poll thread emits its program in order (closes the former cut (d)): every configuration, EVERY schedule,
+   every point of the start phase, every poll thread whose started callback was called: the trace of the node is
+   l1 ++ EStarted t :: l2 (newest first) and the whole executed part [pre] of the start-up sequence of the thread - all of
+   it unless its last event raised CommunicationFailedError - is a subsequence of l2 in program order (events of the main
+   thread and of other poll threads lie in between) *)
+Theorem C15_started_callback_after_whole_round :
+  forall limit fuel c sched,
+    let s := started limit fuel c sched in
+    forall th, In th (s_threads s) -> t_done th = true ->
+    exists pre suf aborted l1 l2,
+      startup_prog (s_node s) (t_id th) = pre ++ suf /\ (aborted = false -> suf = []) /\
+      (aborted = true -> exists p e, pre = p ++ [e] /\ fails_at (s_node s) e = true) /\
+      trace (s_node s) = l1 ++ EStarted (t_id th) :: l2 /\ Sub (rev pre) l2 /\ (forall e, In e pre -> In e l2) /\
+      (exists post, thread_prog (s_node s) (t_id th) = pre ++ EStarted (t_id th) :: post) /\
+      ~ In (EStarted (t_id th)) pre.
+Proof. intros; apply started_means_round_done; assumption. Qed.
+
+(* ---- the clause "configured start values are written before the first poll and the node reports ready only after
+   every poll thread finished its first round" on the TRACE of the node: every configuration, every schedule; when the
+   node reports ready (no time-out), for every poll thread without scripted communication failure the trace reads
+   (newest first) EReady true :: l1 ++ EStarted t :: l2, where the whole start-up sequence of the thread is a
+   subsequence of l2 in program order; in particular l2 contains the write of every configured value of every module
+   the thread serves (failing writes included: the attempt is the event) *)
+Theorem C15_ready_values_written :
+  forall limit fuel c sched,
+    let s := started limit fuel c sched in
+    forall pre0, s_pc s = MRun -> trace (s_node s) = EReady true :: pre0 ->
+    forall th, In th (s_threads s) ->
+      (forall m, In m (polled_of (s_node s) (t_id th)) -> d_cfail (decl_of (s_node s) m) = CFNone) ->
+      exists l1 l2, pre0 = l1 ++ EStarted (t_id th) :: l2 /\ Sub (rev (startup_prog (s_node s) (t_id th))) l2 /\
+        (forall m k, In m (polled_of (s_node s) (t_id th)) -> In k (d_writes (decl_of (s_node s) m)) ->
+           In (EWrite m k) l2).
+Proof. intros; apply ready_values_written; assumption. Qed.
 
 (* shutdown: every poll thread is asked to stop (twice: stopPollThread, joinPollThread) before the first
    shutdownModule, all of it after ready; a node that never became ready is not shut down by this path *)
@@ -177,6 +247,14 @@ Theorem C15_get_module_never_loops :
   forall limit fuel c, enough_fuel limit c <= fuel -> stuck (initialised limit fuel c) = false.
 Proof. intros; apply initialised_terminates; assumption. Qed.
 
+(* the correspondence driver uses exactly that budget (Run.step_fuel c = enough_fuel depth_limit c): for EVERY case -
+   configuration, schedule, pop order, and whatever the implementation is said to have done - the model run behind
+   check_case never exhausts its step budget; the conjunct [negb (stuck st)] of check_case is implied *)
+Theorem C15_correspondence_never_stuck :
+  forall c : case, enough_fuel depth_limit (c_cfg c) <= step_fuel (c_cfg c) /\
+                   stuck (model_final c) = false /\ stuck (s_node (model_run c)) = false.
+Proof. intros c. split; [apply step_fuel_is_enough|apply model_never_stuck]. Qed.
+
 (* one step of the machine strictly decreases the measure behind it *)
 Theorem C15_step_measure_decreases :
   forall C limit st, DB C st -> stack st <> [] -> length (stack st) <= S limit ->
@@ -199,6 +277,34 @@ Theorem C15_ready_lifecycle_exactly_once :
     starts (trace st) = rev (map EStart (map fst (modules st))) /\
     (exists evs, trace st = evs ++ trace (initialised limit fuel c) /\ starts (trace (initialised limit fuel c)) = []).
 Proof. intros; apply ready_lifecycle_once; auto using initialised_terminates. Qed.
+
+(* ---- nodes that end WITH an error (or are still starting, or report ready): at most once each, in order.
+   For every configuration with small names whose references decrease along a rank function (cfg_ranked: every
+   configured attachment target, every io module, every automatically created communicator has a smaller rank than
+   its user - an acyclic configuration; missing, wrongly typed, unconfigured mandatory attachments, failing
+   earlyInit / initModule, HasIO without uri and io, the depth limit are all allowed), every declaration order, every
+   depth limit, every schedule, at EVERY point of the start phase (so also at sys.exit): every module got at most one
+   earlyInit and no more initModule than earlyInit calls (hence at most one), initModule only after earlyInit of the
+   same module, a module that is not marked as initialised got none; startModule was called for a prefix of
+   secnode.modules, once each, in that order, after the whole initialisation.
+   (The rank hypothesis is necessary: on a cyclic configuration the code repeats earlyInit / initModule until the
+   RecursionError, about 250 times - observed, DESIGN.md section 7; exactly once at the ready point needs no rank:
+   C15_ready_lifecycle_exactly_once.) *)
+Theorem C15_lifecycle_at_most_once_with_errors :
+  forall (rank : name -> nat) limit fuel c sched,
+    cfg_small c -> cfg_ranked rank c -> enough_fuel limit c <= fuel ->
+    let st := s_node (started limit fuel c sched) in
+    (forall m, ce m (trace st) <= 1 /\ ci m (trace st) <= ce m (trace st)) /\
+    (forall m, isinit st m = false -> ce m (trace st) = 0 /\ ci m (trace st) = 0) /\
+    early_first (trace st) /\
+    (exists done rest, map fst (modules st) = done ++ rest /\ starts (trace st) = rev (map EStart done)) /\
+    (exists evs, trace st = evs ++ trace (initialised limit fuel c) /\ starts (trace (initialised limit fuel c)) = []).
+Proof. intros; apply (lifecycle_at_most_once rank); auto using initialised_terminates. Qed.
+
+(* the invariant behind it is kept by every step of the get_module machine, with lazy creation and with errors *)
+Theorem C15_at_most_once_step :
+  forall (rank : name -> nat) limit st, RI rank st -> RI rank (step limit st).
+Proof. intros; apply step_RI; assumption. Qed.
 
 (* the counting invariant behind it, one step: earlyInit events of a module = its frames past earlyInit + 1 if marked *)
 Theorem C15_counts_while_no_error :
@@ -261,6 +367,35 @@ Proof.
   - vm_compute. discriminate.
 Qed.
 
+(* non-vacuity of C15_lifecycle_at_most_once_with_errors: module 0 attaches the missing module 99; the configuration
+   is small and ranked, the initialisation ends with a recorded error, the node exits *)
+Definition err_cfg : cfg :=
+  {| c_static := [(0, plain true [to 99] [0]); (1, plain true [to 0] [])]; c_dyn := [] |}.
+Definition err_rank (n : name) : nat := match n with 0 => 1 | 1 => 2 | _ => 0 end.
+Example C15_error_demo : cfg_small err_cfg /\ cfg_ranked err_rank err_cfg /\ enough_fuel 40 err_cfg <= (7 * 1000) /\
+  errors (initialised 40 (7 * 1000) err_cfg) <> [] /\
+  s_pc (started 40 (7 * 1000) err_cfg [SMain; SMain]) = MExited.
+Proof.
+  split; [|split; [|split; [vm_compute; lia|split; [vm_compute; discriminate|vm_compute; reflexivity]]]].
+  - split; intros b d I; simpl in I; repeat (destruct I as [I|I]; [inversion I; subst; split; [lia|vm_compute; lia]|]);
+      contradiction.
+  - split; intros b d I; simpl in I;
+      repeat (destruct I as [I|I]; [inversion I; subst; split; [|split]; simpl;
+                                     [intros a t [A|[]] T; subst a; inversion T; subst; vm_compute; lia
+                                     |intros; discriminate|intros; discriminate]|]);
+      contradiction.
+Qed.
+
+(* the communication failure path (finding C15/later-modules-skipped-after-comm-failure), whole lifecycle: modules 0 and 1
+   share the communicator 100; initialReads of module 0 raises CommunicationFailedError: early started callback, the
+   short wait, then doPoll of module 1 whose configured value x0 was never written; the node reports ready *)
+Example C15_comm_failure_demo :
+  rev (trace (lifecycle 40 2000 cfg_comm sched_comm [0; 1; 100])) =
+  [EEarly 100; EInit 100; EEarly 0; EInit 0; ESee 0 99 (Some 100) true; EEarly 1; EInit 1; ESee 1 99 (Some 100) true;
+   EStart 100; EStart 0; EStart 1; EIReads 100; EIReads 0; EStarted 100; ECWait 100; EDoPoll 100; EDoPoll 0; EDoPoll 1;
+   EReady true; EStop 100; EStop 100; EShutdown 1; EShutdown 0; EShutdown 100].
+Proof. vm_compute. reflexivity. Qed.
+
 (* the former finding: module 0 has export = False, nobody attaches it, it has a configured start value; it is now
    initialised, its value is written in the first round of its poll thread, before the node reports ready *)
 Definition cfg_unexported : cfg :=
@@ -281,6 +416,10 @@ Print Assumptions C15_bad_attachment_recorded.
 Print Assumptions C15_errors_never_ready.
 Print Assumptions C15_ready_after_first_round.
 Print Assumptions C15_writes_before_first_poll.
+Print Assumptions C15_writes_before_first_poll_with_comm_failure_partial.
+Print Assumptions C15_first_round_with_comm_failure.
+Print Assumptions C15_started_callback_after_whole_round.
+Print Assumptions C15_ready_values_written.
 Print Assumptions C15_shutdown_stops_pollers_first.
 Print Assumptions C15_shutdown_every_module_once.
 Print Assumptions C15_shutdown_users_before_attached.
@@ -291,6 +430,10 @@ Print Assumptions C15_ready_all_initialised.
 Print Assumptions C15_no_reentry_while_no_error.
 Print Assumptions C15_ready_lifecycle_exactly_once.
 Print Assumptions C15_counts_while_no_error.
+Print Assumptions C15_lifecycle_at_most_once_with_errors.
+Print Assumptions C15_at_most_once_step.
 Print Assumptions C15_get_module_never_loops.
 Print Assumptions C15_step_measure_decreases.
+Print Assumptions C15_correspondence_never_stuck.
 Print Assumptions C15_refuted_pinata_order_dependent.
+Print Assumptions C15_refuted_writes_before_first_poll_after_comm_failure.
